@@ -164,6 +164,8 @@ static void do_ebu(vio::Cursor & c, vio::Out & o) {
 }
 
 void do_fg(vio::Cursor & c, vio::Out & o);   // harness/C10/fg.cpp
+void do_mlm(vio::Cursor & c, vio::Out & o);  // harness/C10/rt.cpp
+void do_reuse(vio::Cursor & c, vio::Out & o);
 
 int main(int argc, char ** argv) {
     return vio::runCases(argc, argv, [](vio::Cursor & c, vio::Out & o) {
@@ -176,6 +178,8 @@ int main(int argc, char ** argv) {
         else if (kind == "fibmax" || kind == "fibmaxz") do_fibmax(c, o);
         else if (kind == "bg") do_bg(c, o);
         else if (kind == "fg") do_fg(c, o);
+        else if (kind == "mlm") do_mlm(c, o);
+        else if (kind == "reuse") do_reuse(c, o);
         else if (kind == "ebu" || kind == "ebuempty") do_ebu(c, o);
         else throw std::logic_error("unknown case kind " + kind);
     });
